@@ -134,7 +134,7 @@ def gen_path_prog(r, illtyped):
 FLAGS = {}
 
 
-def reference(prog):
+def reference(prog, iso=True):
     """ISO-style reference for well-typed programs: list of (kind, pts, stroke, fill, evenodd, linewidth, dash,
     scolor, ncolor); colours follow ISO 8.6 incl. the reset by cs/CS (initial colour reported as [])"""
     I = (Fr(1), Fr(0), Fr(0), Fr(1), Fr(0), Fr(0))
@@ -183,7 +183,7 @@ def reference(prog):
             path += [("m", [x, y]), ("l", [x + w, y]), ("l", [x + w, y + h]), ("l", [x, y + h]), ("h", [])]
         elif name in PAINT:
             if name in ("s", "b", "b*"):
-                if path and path[-1][0] == "h":
+                if path and path[-1][0] == "h" and iso:
                     FLAGS["doubleclose"] = True        # ISO: closing an already closed subpath adds nothing
                 else:
                     path.append(("h", []))
@@ -235,7 +235,9 @@ def reference(prog):
             n = ncomp.get(a[0].s)
             if n is not None:
                 st["ncs" if name == "cs" else "scs"] = n
-                st["nc" if name == "cs" else "sc"] = None          # ISO 8.6.8: colour reset to its initial value
+                if iso:
+                    FLAGS["csreset"] = True
+                    st["nc" if name == "cs" else "sc"] = None      # ISO 8.6.8: colour reset to its initial value
         elif name in ("sc", "scn", "SC", "SCN"):
             if f is not None and len(f) == na:
                 st["sc" if name in ("SC", "SCN") else "nc"] = tuple(f)
@@ -265,20 +267,29 @@ def correspondence(ctx):
         if not illtyped:
             FLAGS.clear()
             try:
-                want = reference(prog)
+                want = reference(prog, iso=True)
+                want_known = reference(prog, iso=False)      # ISO except for the two recorded deviations
             except Exception:
                 want = None
             if want is not None:
-                resets = any(it == ("op", "cs") or it == ("op", "CS") for it in prog)
-                fam = "paths-csreset" if resets else "paths-doubleclose" if FLAGS.get("doubleclose") else family
+                def norm(ws):
+                    return [(w[0], [(float(x), float(y)) for x, y in w[1]], w[2], w[3], w[4], float(w[5]),
+                             [float(x) for x in (w[7] or ())], [float(x) for x in (w[8] or ())]) for w in ws]
                 obs = [(e[1], [tuple(p) for p in e[2]], bool(e[3]), bool(e[4]), bool(e[5]), e[6], e[8], e[9]) for e in shapes]
-                exp = [(w[0], [(float(x), float(y)) for x, y in w[1]], w[2], w[3], w[4], float(w[5]),
-                        [float(x) for x in (w[7] or ())], [float(x) for x in (w[8] or ())]) for w in want]
+                exp, expk = norm(want), norm(want_known)
                 if obs != exp:
-                    k = next((j for j in range(min(len(obs), len(exp))) if obs[j] != exp[j]), min(len(obs), len(exp)))
-                    ctx.violation(fam, {"pdf": pdf.hex(), "program": ig.ser_prog(prog).decode("latin-1"), "shape": k},
-                                  str(exp[k:k + 1]), str(obs[k:k + 1]),
-                                  "shape %d differs from the painted subpath (points, class, flags or graphics state)" % k)
+                    if obs == expk:
+                        # exactly the recorded deviations and nothing else
+                        fam = "paths-doubleclose" if FLAGS.get("doubleclose") and not FLAGS.get("csreset") else "paths-csreset"
+                        both = FLAGS.get("doubleclose") and FLAGS.get("csreset")
+                        for fm in (["paths-doubleclose", "paths-csreset"] if both else [fam]):
+                            ctx.violation(fm, {"pdf": pdf.hex(), "program": ig.ser_prog(prog).decode("latin-1")},
+                                          "ISO shapes", "recorded deviation only", "known deviation")
+                    else:
+                        k = next((j for j in range(min(len(obs), len(expk))) if obs[j] != expk[j]), min(len(obs), len(expk)))
+                        ctx.violation(family, {"pdf": pdf.hex(), "program": ig.ser_prog(prog).decode("latin-1"), "shape": k},
+                                      str(expk[k:k + 1]), str(obs[k:k + 1]),
+                                      "shape %d differs from the painted subpath (points, class, flags or graphics state)" % k)
     model = ig.model_events([x[4] for x in results])
     for (family, pdf, prog, impl, g), m in zip(results, model):
         if not ig.same(m, impl):
